@@ -76,3 +76,36 @@ fn witness_c05_against_reference() {
     }
     assert_eq!(bad, 0, "check detection disagrees with the reference in {} cases", bad);
 }
+
+/// SAN suffix (the place where mate and stalemate could be confused in text): `#` only for checkmate, `+` for check,
+/// nothing for a quiet move and nothing for a stalemating move
+#[test]
+fn witness_c05_san_suffix() {
+    let mut bad = 0;
+    for (fen, uci, suffix) in [
+        ("7k/8/5QK1/8/8/8/8/8 w - - 0 1", "f6f7", ""),      // stalemates
+        ("7k/8/5QK1/8/8/8/8/8 w - - 0 1", "f6g7", "#"),     // mates
+        ("7k/8/5QK1/8/8/8/8/8 w - - 0 1", "f6f8", "#"),     // Qf8#: g8 h7 covered
+        ("7k/8/5QK1/8/8/8/8/8 w - - 0 1", "f6e5", "+"),     // check along the diagonal, king can go to g8/h7? (g8 free)
+        ("7k/8/5QK1/8/8/8/8/8 w - - 0 1", "f6a1", "+"),
+        ("7k/8/5QK1/8/8/8/8/8 w - - 0 1", "f6f1", ""),
+        ("k7/8/1K6/8/8/8/8/7R w - - 0 1", "h1h8", "#"),
+        ("k7/8/1KP5/8/8/8/8/8 w - - 0 1", "c6c7", ""),      // stalemates: a8 king has no move, not in check
+    ] {
+        let mut board = Bitboard::from_fen_string_unchecked(fen);
+        let san = board.uci_to_pgn(uci).unwrap();
+        let got = if san.ends_with('#') { "#" } else if san.ends_with('+') { "+" } else { "" };
+        // independent reference for the position after the move
+        let mut after = Bitboard::from_fen_string_unchecked(fen);
+        after.make_uci(uci).unwrap();
+        let after_fen = Fen::from(&after).fen;
+        let white_to_move = after_fen.split(' ').nth(1) == Some("w");
+        let checked = ref_in_check(&after_fen, white_to_move);
+        let expect_ref = if checked { if suffix == "#" { "#" } else { "+" } } else { "" };
+        if got != suffix || (suffix != "#" && got != expect_ref) {
+            println!("FAILING-INPUT: fen={:?} uci_to_pgn({:?}) = {:?}: suffix {:?}, expected {:?} (after the move the side to move is {}in check)", fen, uci, san, got, suffix, if checked { "" } else { "not " });
+            bad += 1;
+        }
+    }
+    assert_eq!(bad, 0);
+}
